@@ -54,6 +54,38 @@ class Scenario:
         return sum(1 for m in self.marks if m <= i)
 
 
+class Scenario2(Scenario):
+    """second level: the restart that follows a first crash, logged from the crash image `start` on; L snapshots were exposed"""
+    def __init__(self, sc, start, L, mods, marks):
+        self.integ, self.mode, self.ref, self.final = sc.integ, sc.mode, sc.ref, None
+        self.mods, self.start, self.L = mods, bytes(start), L
+        self.ends = list(sc.ends[:L])
+        self.marks = [0] * L
+        c = bytearray(start)
+        last = 0
+        wrote = False
+        closes = sorted(set(marks))
+        for i, m in enumerate(mods):
+            c = crashmc.apply(c, m)
+            wrote = True
+            if (i + 1) in closes and wrote:
+                self.ends.append(len(c))
+                self.marks.append(i + 1)
+                wrote = False
+        self._base = {}
+
+    def base(self, i):
+        if i not in self._base:
+            c = bytearray(self.start)
+            for m in self.mods[:i]:
+                c = crashmc.apply(c, m)
+            self._base[i] = bytes(c)
+        return self._base[i]
+
+    def completed_saves(self, i):
+        return self.L + sum(1 for m in self.marks[self.L:] if m <= i)
+
+
 def snapshots_of(rebound, fn):
     """-> list of (t, masked fields) for all snapshots of an intact archive"""
     sa = rebound.Simulationarchive(fn)
@@ -264,8 +296,66 @@ def run(ctx):
             outcomes.add((cls, L))
             for sig, what in V:
                 ctx.violation(sig, what, case)
+        # ---- second level: a crash during the restart that follows a first crash
+        reps = {}
+        for (si, i, n), r in zip(tasks, res):
+            if r[0] == "ok" and not r[1][0] and r[1][2] >= 1:
+                key = (si, r[1][1], r[1][2])
+                if key not in reps:
+                    reps[key] = (i, n)
+        rep_list = sorted(reps.items())
+        if ctx.tier == "quick":
+            rep_list = [x for x in rep_list if x[0][0] == 0]
+        rel = ctx.lib("rel")
+        writer = os.path.join(common.VERIF, "mc", "scen", "c07_writer.py")
+        env2 = dict(os.environ)
+        env2.pop("LD_PRELOAD", None)
+        env2["PYTHONPATH"] = common.VERIF
+        scen2 = []
+        tasks2 = []
+        for (si, cls, L), (i, n) in rep_list:
+            sc = scen[si]
+            img = sc.image(i, n)
+            fn2 = os.path.join(workdir, "lvl2-%d-%d-%d.bin" % (si, i, n))
+            open(fn2, "wb").write(img)
+            try:
+                mods2, marks2 = crashmc.run_logged([sys.executable, writer, rel, sc.integ, sc.mode, fn2, str(L - 1)], fn2, env=env2)
+            except RuntimeError as e:
+                ctx.violation("restart-under-strace-fails:%s" % cls, "the logged restart of %s/%s from a crash image (class %s, %d exposed) failed: %s" % (sc.integ, sc.mode, cls, L, str(e)[-300:]), {"integ": sc.integ, "mode": sc.mode, "mod": i, "bytes": n})
+                continue
+            c = bytearray(img)
+            for m in mods2:
+                c = crashmc.apply(c, m)
+            if bytes(c) != open(fn2, "rb").read():
+                raise RuntimeError("second-level syscall log does not reproduce the archive for %s/%s" % (sc.integ, sc.mode))
+            os.unlink(fn2)
+            s2 = Scenario2(sc, img, L, mods2, marks2)
+            scen2.append((s2, cls, L, i, n))
+            for i2, n2, _ in crashmc.images(mods2, start=img):
+                tasks2.append((len(scen2) - 1, i2, n2))
+        ctx.note("second level: %d restarts, %d crash images" % (len(scen2), len(tasks2)))
+        ev2 = Eval(rebound, [x[0] for x in scen2], workdir)
+        tasks2 = ctx.shuffled(tasks2)
+        res2 = pool.run_tasks(ev2, tasks2, timeout=120, chunk=32, progress=lambda d, n: ctx.note("second-level images %d/%d" % (d, n)))
+        outcomes2 = set()
+        for (k2, i2, n2), r in zip(tasks2, res2):
+            s2, cls1, L1, i1, n1 = scen2[k2]
+            case = {"integ": s2.integ, "mode": s2.mode, "mod": i1, "bytes": n1, "second": [i2, n2]}
+            first = "first crash: class %s, %d exposed, mod %d byte %d" % (cls1, L1, i1, n1)
+            if r[0] != "ok":
+                frag = common.classify_crash(r[1])[0] if r[0] == "crash" else r[0]
+                ctx.violation("second-level:opener-%s:%s" % (r[0], frag), "opening / restarting the image of a crash during the restart %s the process (%s/%s; %s; second crash at mod %d byte %d): %s" % (
+                    "kills" if r[0] == "crash" else r[0] + "s", s2.integ, s2.mode, first, i2, n2, str(r[1])[-400:]), case)
+                continue
+            V2, cls2, L2 = r[1]
+            outcomes2.add((cls1, cls2, L2 - L1))
+            if L2 >= 0 and L2 < L1:
+                ctx.violation("second-level:lost-snapshots:%s" % cls2, "after a crash during the restart the archive exposes %d snapshots, %d were readable before the restart (%s/%s; %s; second crash at mod %d byte %d)" % (L2, L1, s2.integ, s2.mode, first, i2, n2), case)
+            for sig, what in V2:
+                ctx.violation("second-level:" + sig, what + " [" + first + "]", case)
         cov = {
-            "evaluations": len(tasks), "distinct_nontrivial": len(outcomes),
+            "second_level_restarts": len(scen2), "second_level_images": len(tasks2), "second_level_outcomes": len(outcomes2),
+            "evaluations": len(tasks) + len(tasks2), "distinct_nontrivial": len(outcomes) + len(outcomes2),
             "rule": "crash image = archive after every byte prefix of the strace-logged write(2) sequence of a 5-snapshot history (manual snapshots with a structural change, step cadence, interval cadence); "
                     "distinct = (cut class from the file's own field map, number of snapshots exposed); each image is opened by three openers, compared with the uninterrupted archive and restarted to completion",
             "samples": [{"integ": scen[0].integ, "mode": scen[0].mode, "mods": [(m[0], m[1], len(m[2])) if m[0] == "write" else m for m in scen[0].mods], "save_calls_end_after_mod": scen[0].marks, "sizes": scen[0].ends}],
